@@ -289,7 +289,8 @@ func c01Event(c obj, seed int64) obj {
 	p, msg := guarded(func() {
 		orig := buildStep(c["orig"].(map[string]any), rng)
 		penv := envOf(c["penv"], rng)
-		sig, err := signature.Sign(ctx, signer.sign, orig, signature.WithEnv(penv))
+		plog := &payloadLogger{}
+		sig, err := signature.Sign(ctx, signer.sign, orig, signature.WithEnv(penv), signature.WithLogger(plog), signature.WithDebugSigning(true))
 		if err != nil {
 			ev["errmsg"] = "sign: " + err.Error()
 			return
@@ -316,6 +317,17 @@ func c01Event(c obj, seed int64) obj {
 			rec.Value = s2.Value
 		case "bitflip":
 			rec.Value = flipSignatureBit(sig.Value)
+		case "attach":
+			// header..signature -> header.<original payload>.signature : a valid ATTACHED JWS of the original step
+			if len(plog.payloads) != 1 {
+				panic(fmt.Sprintf("driver: expected one logged payload from Sign, got %d", len(plog.payloads)))
+			}
+			parts := strings.Split(sig.Value, ".")
+			if len(parts) != 3 || parts[1] != "" {
+				panic("driver: not a detached compact JWS: " + sig.Value)
+			}
+			parts[1] = base64.RawURLEncoding.EncodeToString([]byte(plog.payloads[0]))
+			rec.Value = strings.Join(parts, ".")
 		}
 		pres := buildStep(c["pc"].(map[string]any), rng)
 		venv := envOf(c["venv"], rng)
